@@ -214,7 +214,23 @@ func c06Readable(p m.Packet) m.Packet {
 }
 
 func genC06Frame(t *rapid.T) ([]byte, bool) {
-	switch rapid.IntRange(0, 9).Draw(t, "frame.kind") {
+	switch rapid.IntRange(0, 10).Draw(t, "frame.kind") {
+	case 10:
+		// a valid encoding cut short by one or two words, length field fixed up: still well
+		// framed, but its last element no longer fits - a decoder must not look past the frame
+		p := c06Readable(gen.Packet(t))
+		e, err := m.Encode(p, &m.EncOpts{D: gen.PionDialect})
+		if err != nil {
+			panic(err)
+		}
+		b := e.B
+		k := 4 * rapid.IntRange(1, 2).Draw(t, "cut.words")
+		if len(b)-k >= 4 {
+			b = b[:len(b)-k]
+			w := len(b)/4 - 1
+			b[2], b[3] = byte(w>>8), byte(w)
+		}
+		return b, false
 	case 0, 1, 2, 3:
 		// reference encoding in the form pion's decoders read (so that typed decoders succeed)
 		p := c06Readable(gen.Packet(t))
